@@ -134,7 +134,7 @@ RelOf(t) == [i \in 1..Len(RelUni) |-> TGet(t, Base \o RelUni[i])]
 \* anyret: the property is silent about the answer of this call
 AnsCx(a, arg, ret, anyret) ==
   obs' = [a |-> a, arg |-> arg,
-          exp |-> [ret |-> ret, anyret |-> anyret, all |-> AllOf(tree'), rel |-> RelOf(tree'),
+          exp |-> [ret |-> ret, anyret |-> anyret, nodes |-> Count(st'), all |-> AllOf(tree'), rel |-> RelOf(tree'),
                    all2 |-> [i \in 1..Len(Uni) |-> SGet(st', Uni[i])]]]
 AnsC(a, arg, ret) == AnsCx(a, arg, ret, FALSE)
 AnyC(a, arg) == AnsCx(a, arg, "any", TRUE)
@@ -281,7 +281,7 @@ Init ==
   /\ obs = [a |-> "init", arg |-> [base |-> IF Base = <<>> THEN <<0>> ELSE Str(Base), sep |-> Sep,     \* <<0>>: no view
                                     uni |-> [i \in 1..Len(Uni) |-> Str(Uni[i])],
                                     rel |-> [i \in 1..Len(RelUni) |-> IF RelUni[i] = <<>> THEN <<0>> ELSE Str(RelUni[i])]],
-            exp |-> [ret |-> "ok", anyret |-> FALSE, all |-> [i \in 1..Len(Uni) |-> NoVal],
+            exp |-> [ret |-> "ok", anyret |-> FALSE, nodes |-> 0, all |-> [i \in 1..Len(Uni) |-> NoVal],
                      rel |-> [i \in 1..Len(RelUni) |-> NoVal],
                      all2 |-> [i \in 1..Len(Uni) |-> NoVal]]]
 
